@@ -1267,8 +1267,8 @@ func ruleStoreReplaces(c *Ctx) {
 						if kind == "" || !writesParam(g, i, 0) {
 							continue
 						}
-						if _, isParam := a.(*ssa.Parameter); isParam {
-							continue // judged where the caller gets its argument from
+						if _, isParam := outerBase(a).(*ssa.Parameter); isParam {
+							continue // judged where the caller gets its argument from (also an embedded part of it)
 						}
 						if _, isKs := loadedField(a); isKs == c.Field("dataStore", "data") && isKs != nil {
 							continue // the keyspace itself: installing the destination
